@@ -291,6 +291,9 @@ def gen_flood(seed: int, where: str) -> dict:
                 prog.append(['yield', 1])
             if r.random() < 0.02:
                 prog.append(['await', f'v{r.randrange(i + 1)}'])
+        if r.random() < 0.35:
+            # a dispatch attempted from a worker thread (no running loop there) in the middle of the handler
+            prog.insert(r.randrange(len(prog) + 1), ['dispatch_noloop', tgt, 'E1', {}, 'nl'])
         sc['handlers'].append({'bus': buses[0], 'pattern': 'E0', 'kind': 'async', 'prog': prog})
         sc['callers'].append({'prog': [['dispatch_await' if r.random() < 0.7 else 'dispatch', buses[0], 'E0', {}, 'r0']]})
         if r.random() < 0.4:
@@ -367,6 +370,8 @@ PAYLOADS = [
     {}, [1, [2, [3, {'k': None}]]], {'a': {'b': {'c': [1, 2, {'d': 'é'}]}}}, {'$dt': '2024-02-29T12:30:00+00:00'},
     {'when': {'$dt': '1999-12-31T23:59:59.999999+00:00'}, 'tags': ['x', 'ÿ']}, {'k' * 40: 'v' * 200}, [None, False, 0, ''],
 ]
+# payloads the JSON serialiser refuses: the WAL attempt fails before any I/O (must be reported, must not affect processing)
+BAD_PAYLOADS = [{'$bytes': 'fffe'}, {'$object': 1}, {'blob': {'$bytes': 'c328'}}, [1, {'$object': 1}]]
 
 
 def gen_wal(seed: int, fault_at: int | None = None, fault_kind: str | None = None, faulty: bool = False) -> dict:
@@ -383,6 +388,8 @@ def gen_wal(seed: int, fault_at: int | None = None, fault_kind: str | None = Non
         o = {}
         if r.random() < 0.7:
             o['payload'] = r.choice(PAYLOADS)
+        if faulty and r.random() < 0.08:
+            o['payload'] = r.choice(BAD_PAYLOADS)
         if r.random() < 0.25:
             o['extra'] = {r.choice(['x_note', 'x_count', 'user_id']): r.choice(['é', 7, [1, 2], {'$dt': '2030-01-01T00:00:00+00:00'}])}
         return o
@@ -419,7 +426,7 @@ def gen_wal(seed: int, fault_at: int | None = None, fault_kind: str | None = Non
         sc['callers'].append({'prog': prog})
     lat = r.choice([[0.0, 0.0, 0.0], [0.0, 0.002, 0.003], [0.0, 0.0, 0.001], [0.0, 0.05, 0.06]])
     io = {'latency': lat, 'faults': {}}
-    kinds = ['mkdir_error', 'open_error', 'write_error', 'short_write', 'close_error']
+    kinds = ['mkdir_error', 'open_error', 'write_error', 'short_write', 'close_error', 'open_error_runtime', 'write_error_value']
     if fault_at is not None:
         io['faults'][str(fault_at)] = fault_kind
     elif faulty:
@@ -434,7 +441,7 @@ def gen_wal(seed: int, fault_at: int | None = None, fault_kind: str | None = Non
 def _wal_enum(seed):
     base, i = seed // 128, seed % 128
     op, variant = i // 2, i % 2
-    kind = ['mkdir_error', 'open_error', 'write_error' if variant == 0 else 'short_write', 'close_error'][op % 4]
+    kind = ['mkdir_error', 'open_error' if variant == 0 else 'open_error_runtime', 'write_error' if variant == 0 else ('short_write' if base % 2 else 'write_error_value'), 'close_error'][op % 4]
     return dict(gen_wal(base, fault_at=op, fault_kind=kind), profile='wal_enum', seed=seed)
 
 
